@@ -89,7 +89,7 @@ type tracer struct {
 	start time.Time
 }
 
-func (t *tracer) ms() int64 { return time.Since(t.start).Milliseconds() }
+func (t *tracer) ms() int64 { return time.Since(t.start).Milliseconds() } // called with mu held
 
 // add stamps and writes one event; the lock orders the events (one global sequence).
 func (t *tracer) add(ev vh.Ev, withT bool) {
@@ -322,11 +322,6 @@ func child(scPath, tracePath string) {
 		vh.Die("create trace: %v", err)
 	}
 	tr := &tracer{f: f, start: time.Now()}
-	if sc.Config.Align {
-		// quota windows start on whole wall-clock seconds: tick k of a directed schedule = wall second k
-		now := time.Now()
-		tr.start = now.Truncate(time.Second).Add(1100 * time.Millisecond)
-	}
 	gs := newGates()
 	slack := time.Duration(sc.Config.SlackMs) * time.Millisecond
 	ttl := time.Duration(sc.Config.TTLs) * time.Second
@@ -436,6 +431,11 @@ func child(scPath, tracePath string) {
 		finish()
 	}
 	if sc.Config.Align {
+		// quota windows start on whole wall-clock seconds: tick k of a forced schedule = wall second k.  The scenario
+		// clock starts 100 ms after the next second boundary (computed now, after the engine is up)
+		tr.mu.Lock()
+		tr.start = time.Now().Truncate(time.Second).Add(1100 * time.Millisecond)
+		tr.mu.Unlock()
 		time.Sleep(time.Until(tr.start))
 	}
 	awaitTimeout := 4 * time.Second
